@@ -565,6 +565,8 @@ OUTPUT_CASES = [
     ('hello world', 'HELLO WORLD'), ('hello world', 'hello world'), ('hello world', 'HELLO'), ('hello world', 'WORLD HELLO'),
     ('a, b', 'A B'), ('a, b', 'A, B'), ('abc', 'ABD'), ('abc', ''), ('', ''), ('x', 'X\n'), ('two\nlines', 'LINES\nTWO'), ('12', '1[0-9]'),
     ('12', '^2'), ('paren(', '('),
+    # output that ends in several line ends: only the one that print() added is not part of the text
+    ('title\n\n', 'TITLE'), ('title\n\n', 'TITLE\n\n'), ('title\n', 'TITLE\n'), ('title\n', 'TITLE'), ('a\r', 'A'), ('a\r', 'A\r'), ('\n\n', ''), ('\n\n', '\n\n'),
 ]
 
 
